@@ -91,7 +91,12 @@ CLAIMED = {
          "over inputs and glyphs with the freshness of each generated name), renaming only appends a suffix, and a character maps to the glyph "
          "of the FIRST input that supports it (cmap_first_wins). Tied to the code by exact correspondence on colliding name sets and overlapping "
          "maps; whole merges of generated fonts (shared/disjoint charsets, names that already look renamed, required features, shared scripts) are "
-         "compared per character and per text through HarfBuzz with the first supporting input (testing). Layout index remapping is sweep-only.",
+         "compared per character and per text through HarfBuzz with the first supporting input (testing). Layout: mergeScriptRecords / "
+         "mergeScripts / mergeLangSyses / mergeFeatureLists / mergeFeatures are modelled (group by tag in an insertion-ordered dict, sort, the "
+         "single-input pass-through, the required-feature assertion): merged script, language-system and feature records come out in STRICT "
+         "tag order (what a shaper's binary search needs) and a feature tag switches on exactly the lookups the inputs gave it, in input "
+         "order (any number of inputs, any record order); correspondence against the real functions on otTables objects. Lookup index "
+         "remapping is sweep-only.",
          "Rocq proof of naming uniqueness and first-wins cmap + correspondence + HarfBuzz merge sweeps"),
  "C16": ("Theorems: numbering built with sorted(set(...)) depends only on the SET (permutation and multiplicity invariance: two strictly "
          "sorted lists with the same elements are equal); the save state machine (tables written in order; a loaded table is compiled, which may "
